@@ -10,6 +10,7 @@ import (
 	"strings"
 	"syscall"
 	"testing"
+	"time"
 
 	"verif/fw"
 	"verif/simrt"
@@ -502,6 +503,10 @@ func TestC07(t *testing.T) {
 
 func runC07Proc(c *fw.Case) {
 	c.Probe("process-level-case (real desync binary)")
+	if c.ChanceAdded(1, 8, "proc.s3prune") {
+		runC07ProcS3Prune(c)
+		return
+	}
 	cmdKind := c.Draw(7, "proc.cmd")
 	names := []string{"extract", "extract --in-place", "chop", "cache", "make", "untar -i", "tar -i"}
 	sig := []syscall.Signal{syscall.SIGINT, syscall.SIGTERM}[c.Draw(2, "proc.sig")]
@@ -774,6 +779,125 @@ func runC07Proc(c *fw.Case) {
 				c.Violate("destination-touched", "desync extract", "%v at request %d of %d: extract failed (exit %d) but the destination path changed", sig, k, total, res.exit)
 				return
 			}
+		}
+	}
+	c.Outcome("ok")
+}
+
+// runC07ProcS3Prune: `desync prune` on an S3 store, interrupted while the listing or a removal is in flight. Exit
+// status 0 means what it means without a signal: no unreferenced chunk of the store's format is left.
+func runC07ProcS3Prune(c *fw.Case) {
+	r := c.Rand("s3prune.seed")
+	sig := []syscall.Signal{syscall.SIGINT, syscall.SIGTERM}[c.Draw(2, "proc.sig")]
+	n := c.Range(2, 12, "s3prune.objects")
+	prefix := []string{"", "pfx", "store/a"}[c.Draw(3, "s3prune.prefix")]
+	pfx := prefix
+	if pfx != "" {
+		pfx += "/"
+	}
+	type obj struct {
+		key string
+		ref bool
+	}
+	var objs []obj
+	idx := desync.Index{Index: desync.FormatIndex{FeatureFlags: desync.CaFormatExcludeNoDump | desync.CaFormatSHA512256, ChunkSizeMin: 64, ChunkSizeAvg: 256, ChunkSizeMax: 1024}}
+	var pos uint64
+	unref := 0
+	for i := 0; i < n; i++ {
+		var id desync.ChunkID
+		for j := range id {
+			id[j] = byte(r.IntN(256))
+		}
+		sid := id.String()
+		o := obj{key: pfx + sid[:4] + "/" + sid + ".cacnk", ref: r.IntN(2) == 0}
+		if o.ref {
+			idx.Chunks = append(idx.Chunks, desync.IndexChunk{ID: id, Start: pos, Size: 100})
+			pos += 100
+		} else {
+			unref++
+		}
+		objs = append(objs, o)
+	}
+	if unref == 0 {
+		c.Outcome("empty")
+		return
+	}
+	indexFile := filepath.Join(c.Dir(), "keep.caibx")
+	writeIndexFile(indexFile, idx)
+	env := []string{"S3_ACCESS_KEY=verif", "S3_SECRET_KEY=verifsecret", "S3_REGION=us-east-1"}
+	c.Class(fmt.Sprintf("proc prune (S3) sig=%v objects<=%d", sig, (n+3)/4*4))
+	c.NonTrivial()
+	serve := func() (*s3Sim, []string) {
+		s3, err := newS3Sim()
+		if err != nil {
+			c.HarnessError("%v", err)
+			return nil, nil
+		}
+		for _, o := range objs {
+			s3.objects[o.key] = []byte("chunk object")
+		}
+		return s3, []string{"prune", "-y", "-s", "s3+http://" + s3.ln.Addr().String() + "/bucket/" + prefix + "?lookup=path", indexFile}
+	}
+	left := func(s3 *s3Sim) int {
+		s3.mu.Lock()
+		defer s3.mu.Unlock()
+		k := 0
+		for _, o := range objs {
+			if _, there := s3.objects[o.key]; there && !o.ref {
+				k++
+			}
+		}
+		return k
+	}
+	// un-signalled run
+	s3, args := serve()
+	if s3 == nil {
+		return
+	}
+	exit, _, stderr, err := runDesyncEnv(env, 90*time.Second, args...)
+	l := left(s3)
+	s3.close()
+	if errors.Is(err, errProcTimeout) {
+		c.Probe("procsim-timeout-case-dropped")
+		return
+	}
+	if err != nil {
+		c.HarnessError("%v", err)
+		return
+	}
+	if exit != 0 || l != 0 {
+		c.Violate("command-failed", "desync prune (S3)", "un-signalled run: exit %d, %d unreferenced object(s) left: %s", exit, l, tailBytes(stderr, 300))
+		return
+	}
+	points := []struct {
+		kind string
+		at   int
+	}{{"LIST", 1}, {"DELETE", 1}, {"DELETE", unref}, {"DELETE", 1 + c.Draw(unref, "s3prune.k")}}
+	for _, pt := range points {
+		s3, args := serve()
+		if s3 == nil {
+			return
+		}
+		s3.holdKind, s3.holdAt = pt.kind, pt.at
+		res, err := runHeld(s3.held, s3.release, env, sig, args...)
+		l := left(s3)
+		s3.close()
+		if errors.Is(err, errProcTimeout) {
+			c.Probe("procsim-timeout-case-dropped")
+			return
+		}
+		if err != nil {
+			c.HarnessError("%v", err)
+			return
+		}
+		if !res.heldSeen {
+			continue
+		}
+		c.SubEval(1)
+		c.Fault("signal-" + sig.String())
+		if res.exit == 0 && l != 0 {
+			c.Violate("exit-0-after-signal", "desync prune (S3)", "%v while %s request %d was in flight: the command exited 0 but %d unreferenced object(s) are still in the store", sig, pt.kind, pt.at, l)
+			return
 		}
 	}
 	c.Outcome("ok")
